@@ -16,7 +16,25 @@ import random
 from harness import tlc
 from harness.common import MachineryFailure, parallel, run_workers
 
-KEYS = {"event": ["e1", "e2"], "mqtt": ["t/1", "t/2"], "webhook": ["w1", "w2", "w3", "w4"]}
+KEYS = {"event": ["e1", "e2"], "mqtt": ["t/1", "t/2", "t/+", "#", "+/2", "t/1/#"], "webhook": ["w1", "w2", "w3", "w4"]}
+# what is published / fired: concrete MQTT topics (subscriptions may be filters with + and #)
+MSG_KEYS = {"event": ["e1", "e2"], "mqtt": ["t/1", "t/2", "u/2", "t/1/z"]}
+
+
+def levels(kind, key):
+    return key.split("/") if kind == "mqtt" else []
+
+
+def topic_matches(flt, topic):
+    """MQTT 3.1.1 topic filter matching (the broker's side of the hand-over, i.e. the environment)."""
+    f, t = flt.split("/"), topic.split("/")
+    for i, lv in enumerate(f):
+        if lv == "#":
+            return True
+        if i >= len(t) or (lv != "+" and lv != t[i]):
+            return False
+    return len(f) == len(t)
+
 
 
 def flt_src(kind, flt):
@@ -50,7 +68,7 @@ def gen_scenario(r, sid):
     for f in range(nfun):
         ndec = r.choice([1, 1, 2])
         for d in range(ndec):
-            kind = r.choice(["event", "event", "event", "mqtt", "webhook"])
+            kind = r.choice(["event", "event", "mqtt", "mqtt", "webhook"])
             if kind == "webhook":
                 free = [k for k in KEYS["webhook"] if k not in used_wh]
                 if not free:
@@ -77,8 +95,8 @@ def gen_scenario(r, sid):
         msgs = []
         for _ in range(r.choice([1, 2, 3, 4])):
             n += 1
-            kind = r.choice(["event", "event", "event", "mqtt", "webhook"])
-            key = r.choice(KEYS[kind][:2]) if kind != "webhook" else r.choice(sorted(used_wh) or ["w1"])
+            kind = r.choice(["event", "event", "mqtt", "mqtt", "webhook"])
+            key = r.choice(MSG_KEYS[kind]) if kind != "webhook" else r.choice(sorted(used_wh) or ["w1"])
             # v = "x": not a number - a filter int(v) raises on it (no run, and the trigger must keep serving)
             d = {"n": "m%d" % n, "v": r.choice("0011x"), "sl": r.choice("001")}
             # messages of one type need not carry the same keys: a filter that reads a missing one raises (no run)
@@ -191,7 +209,7 @@ def run_case(scn, legacy):
         for b in scn["bursts"]:
             msgs = []
             for m in b["msgs"]:
-                mm = {"kind": m["kind"], "key": m["key"], "d": m["d"], "args": msg_args(m), "ctx": "-"}
+                mm = {"kind": m["kind"], "key": m["key"], "lv": levels(m["kind"], m["key"]), "d": m["d"], "args": msg_args(m), "ctx": "-"}
                 if m["kind"] == "event":
                     ctx = Context()
                     mm["ctx"] = ctx.id
@@ -199,7 +217,7 @@ def run_case(scn, legacy):
                 elif m["kind"] == "mqtt":
                     msg = types.SimpleNamespace(topic=m["key"], payload=json.dumps(m["d"]), qos=0, retain=False)
                     for (topic, cb) in list(subs):
-                        if topic == m["key"]:
+                        if topic_matches(topic, m["key"]):
                             hass.async_create_task(cb(msg))
                 else:
                     h = hass.data.get("webhook", {}).get(m["key"])
@@ -254,6 +272,7 @@ def run_case(scn, legacy):
     world.run({"hello.py": source(scn)}, body, legacy=legacy, extra_patches=patches)
     for t in scn["trigs"]:
         t.setdefault("xp", "-")        # scenarios recorded before the extra event.fire() parameter existed
+        t["lv"] = levels(t["kind"], t["key"])
     return {"id": "%s/%s" % (scn["sid"], "legacy" if legacy else "dm"), "trigs": scn["trigs"], "bursts": out_bursts,
             "ends": ends, "legacy": legacy, "scn": scn}
 
@@ -346,7 +365,7 @@ def main(ctx):
     if ctx.quick:
         base = base.replace("MaxMsgs = 3", "MaxMsgs = 2")
     open(cfg, "w").write(base)
-    wnames = ("W_NoOverlap", "W_NoFiltered", "W_NoFilterError")
+    wnames = ("W_NoOverlap", "W_NoFiltered", "W_NoFilterError", "W_NoWildcardRun")
     for wname in wnames:
         open(os.path.join(ctx.scratch, "Msgs_%s.cfg" % wname), "w").write(
             "SPECIFICATION Spec\nCONSTANTS MaxMsgs = 2\nINVARIANT %s\nCHECK_DEADLOCK FALSE\n" % wname)
@@ -381,7 +400,7 @@ def main(ctx):
         ctx.sample({k: v for k, v in c.items() if k != "scn"})
     selftest(ctx, [c for c in cases if c["id"] not in rejected][:150])
     ctx.assumptions += [
-        "MQTT and webhook messages are injected at the hand-over boundary (a fake mqtt.async_subscribe broker with exact-topic matching; the handler registered with HA's webhook component is awaited directly)",
+        "MQTT and webhook messages are injected at the hand-over boundary (a fake mqtt.async_subscribe broker with MQTT topic-filter matching (+ and #); the handler registered with HA's webhook component is awaited directly)",
         "context lineage is required only for runs started by trigger occurrences that carry a context (events)",
         "two triggers never share a webhook id (HA allows one handler per id)",
     ]
